@@ -805,6 +805,10 @@ theorem C14_conversion_sites_reviewed :
        ("config/configtls/configtls.go", "Config.loadCertificate", "[]byte", "= keyPem"),
        ("exporter/otlpexporter/otlp.go", "baseExporter.start", "string", "= headers[k]")] := by decide
 
+/-- no code of the repository calls a METHOD of the opaque type on an opaque value (`v.String()` …): every method yields the marker
+(`C14_methods_marker`), so on a use path it would send / store "[REDACTED]" instead of the secret the clause promises to conversions -/
+theorem C14_no_marker_methods_on_use_paths : OpaqueCensus.methodCalls = [] := by decide
+
 /-- the calls that receive a still-typed opaque value: only the response-header middleware -/
 theorem C14_typed_passes_reviewed :
     OpaqueCensus.passes.map (fun s => (s.file, s.fn, s.expr, s.ctx)) =
